@@ -126,11 +126,13 @@ type wlMerge struct {
 }
 
 var (
-	safeRel   = []string{"a", "b", "c", "member", "viewer", "view", "owner", "editor", "ab"}
+	// keyword free, but with every character class identifiers may contain
+	// (_ - . /) and with names that are prefixes of each other
+	safeRel   = []string{"a", "b", "c", "member", "viewer", "view", "owner", "editor", "ab", "org_viewer", "can-view", "can.view"}
 	safeTS    = []string{"parent", "p", "container"}
-	safeObj   = []string{"doc", "docs", "folder", "group", "org", "team", "wiki"}
+	safeObj   = []string{"doc", "docs", "folder", "group", "org", "team", "wiki", "wiki/page", "org-unit"}
 	safeTerm  = []string{"user", "employee", "users", "device"}
-	modNames  = []string{"core", "wiki", "acl", "m2"}
+	modNames  = []string{"core", "wiki", "acl", "m2", "core-eu", "core_eu"}
 	safeConds = []string{"c1", "c2", "cond"}
 )
 
@@ -172,7 +174,7 @@ func genModuleSet(r *rng, wantConflicts int) *wlMerge {
 	wl := &wlMerge{Variant: "base", Schema: []string{"1.2", "1.1", "1.2", "2.0-x"}[r.intn(4)]}
 	nmod := 1 + r.intn(4)
 	var files []*PFile
-	for i := 0; i < nmod; i++ {
+	for _, i := range r.perm(len(modNames))[:nmod] {
 		nf := 1 + r.intn(2)
 		for j := 0; j < nf; j++ {
 			name := modNames[i] + ".fga"
